@@ -24,6 +24,7 @@ def run(tier, seed, build):
     n_modules = 60 if tier == "quick" else 900
     model = common.Model()
     cases = vl.run_batch(rng, n_modules, model)
+    cases += vl.run_file_batch(rng, n_modules // 3, model)
     by_module = {}
     for c in cases:
         res.evaluations += 1
@@ -56,7 +57,8 @@ def run(tier, seed, build):
                 res.count("justified-call:" + rule)
         if n_names >= 3:
             res.nontrivial.add(common.digest(c.fn_src))
-        by_module.setdefault(c.module_src, []).append(c)
+        if isinstance(c.fn, (ast.FunctionDef, ast.AsyncFunctionDef)) and c.name.startswith('fn'):
+            by_module.setdefault(c.module_src, []).append(c)
         res.sample({"function": c.fn_src, "sets": c.im["sets"][:5], "dels": c.im["dels"][:5]}, cap=3)
 
     # freshness: one function analysed with the others removed from the module gives the same IR
